@@ -1376,6 +1376,8 @@ package sarama
 //@ func topicProducer.partitionMessage#lit0() props C17
 //@   callsite Partitions: requires[all_partitions_iff_consistent] requiresConsistency
 //@   callsite WritablePartitions: requires[writable_otherwise] !requiresConsistency
+//@   callsite Partitions: requires[all_partitions_only_for_messages_that_need_them] ite(implements(tp.partitioner, DynamicConsistencyPartitioner), msgConsistency(tp.partitioner, msg), staticConsistency(tp.partitioner))
+//@   callsite WritablePartitions: requires[writable_partitions_for_the_others] !ite(implements(tp.partitioner, DynamicConsistencyPartitioner), msgConsistency(tp.partitioner, msg), staticConsistency(tp.partitioner))
 
 //@ func (tp *topicProducer) partitionMessage(msg) props C17 C04
 //@   returns err
@@ -2602,4 +2604,38 @@ package sarama
 //@   loop 3: invariant sess.setups == 1
 //@   loop 3: iter_ensures[one_claim_per_assigned_partition] wgcount(sess.waitGroup) == it(wgcount(sess.waitGroup)) + 1
 //@   ensures[setup_once] err == nil ==> s != nil && s == sess && sess.setups == 1 && s.memberID == memberID && s.generationID == generationID && s.handler == handler && s.claims == claims
+//@   nosafety
+
+// (C17) which partitions a message is offered: all partitions exactly when the message needs a consistent choice - the
+// per-message answer of a partitioner that gives one (DynamicConsistencyPartitioner), the partitioner's static
+// answer otherwise - and only the writable ones for every other message.
+//@ ghost func msgConsistency(Partitioner, *ProducerMessage) bool
+//@ ghost func staticConsistency(Partitioner) bool
+//@ func (p Partitioner) RequiresConsistency() props C17
+//@   returns r
+//@   ensures r == staticConsistency(p)
+//@   modifies nothing
+//@ func (p DynamicConsistencyPartitioner) MessageRequiresConsistency(message) props C17
+//@   returns r
+//@   ensures r == msgConsistency(p, message)
+//@   modifies nothing
+
+// (C09) ProduceRequest.decode: which record format a partition carries is decided by the bytes (the magic byte the
+// Records decoder looks at), not by the request version: Records.decode is entered with the format undecided.
+//@ func (r *ProduceRequest) decode(pd, version) props C09
+//@   returns err
+//@   requires pd.remaining() >= 0
+//@   loop 0: invariant pd.remaining() >= 0
+//@   loop 1: invariant pd.remaining() >= 0
+//@   callsite Records.decode: requires[record_format_decided_by_the_bytes] $recv.recordsType == unknownRecords
+//@   nosafety
+
+// (C09, C11) ControlRecord.encode: the key of a control record is the version followed by the type (0 abort,
+// 1 commit), which is the order ControlRecord.decode reads them in; the value starts with the version.
+//@ func (cr *ControlRecord) encode(key, value) props C09 C11
+//@   requires key != value
+//@   callsite packetEncoder.putInt16#0: requires[value_starts_with_the_version] $recv == value && $arg0 == cr.Version
+//@   callsite packetEncoder.putInt16#1: requires[key_starts_with_the_version] $recv == key && $arg0 == cr.Version && key.offset() == old(key.offset())
+//@   callsite packetEncoder.putInt16#2: requires[abort_is_type_0_after_the_version] $recv == key && cr.Type == ControlRecordAbort && $arg0 == 0 && key.offset() == old(key.offset()) + 2
+//@   callsite packetEncoder.putInt16#3: requires[commit_is_type_1_after_the_version] $recv == key && cr.Type == ControlRecordCommit && $arg0 == 1 && key.offset() == old(key.offset()) + 2
 //@   nosafety
